@@ -14,6 +14,15 @@ import (
 
 func init() {
 	reg("C17-R4", "skip-list hand-over contracts (latches): given the documented contracts of FindNode / FindNodeWithEntryIdxForItr (found node returned latched), validateNoChangeAndGetLock (success: receiver and corner nodes latched; failure: nothing held), SplitNode (new node returned latched), unlockAndUnpinNodes and SkipListBlockPage.Insert/Remove (release the receiver), the consumers — SkipListBlockPage.Insert/Remove, SkipList.GetValue/Insert/Remove, SkipListIterator.initRIDList — release every latch exactly once on every non-panicking path", func(w *World, r *Report) {
+		skipListHandOver(w, r, false)
+	})
+	reg("C17-R4/pins", "skip-list hand-over contracts (pins): under the same contracts (each hand-over of a latched node carries exactly one pin of it) the consumers unpin every node exactly once on every non-panicking path", func(w *World, r *Report) {
+		skipListHandOver(w, r, true)
+	})
+}
+
+func skipListHandOver(w *World, r *Report, pins bool) {
+	{
 		lt := w.LockTable()
 		a := w.A()
 		fetchCast := w.FuncObj("storage/page/skip_list_page", "FetchAndCastToBlockPage")
@@ -220,14 +229,24 @@ func init() {
 				r.Undecided(k+":hand-over-latches", "state space cap hit", "")
 				continue
 			}
-			issues = uniq(issues)
+			var mine []string
+			for _, x := range uniq(issues) {
+				if strings.Contains(x, "#pin") == pins {
+					mine = append(mine, x)
+				}
+			}
+			issues = mine
 			if len(issues) > 6 {
 				issues = append(issues[:6], "…")
 			}
-			r.Check(len(issues) == 0, k+":hand-over-latches", "under the documented hand-over contracts every latch and pin is released exactly once on every path", strings.Join(issues, "; "))
+			if pins {
+				r.Check(len(issues) == 0, k+":hand-over-pins", "under the documented hand-over contracts every pin is released exactly once on every path", strings.Join(issues, "; "))
+			} else {
+				r.Check(len(issues) == 0, k+":hand-over-latches", "under the documented hand-over contracts every latch is released exactly once on every path", strings.Join(issues, "; "))
+			}
 		}
 		r.Floor("contract call sites interpreted", nContracts, 8)
-	})
+	}
 }
 
 // lockPathVia: like LockTable.lockPath, but the innermost value is named by pathFn (used to give the
